@@ -486,4 +486,315 @@ theorem loadNode_ok (n : NodeD) (hv : validNode n = true) (hx : exitsByCats n = 
           rw [hnacts']
           simp [hnorm]
 
+/-! ### the name → uuid dictionary -/
+
+theorem dget_dset (k k' v : Str) : ∀ D : UDict, dget k (dset k' v D) = if k' = k then some v else dget k D
+  | [] => by simp [dset, dget]
+  | (k0, v0) :: rest => by
+    by_cases h0 : k0 = k'
+    · subst h0
+      by_cases h1 : k0 = k <;> simp [dset, dget, h1]
+    · by_cases h1 : k0 = k
+      · subst h1
+        have : ¬ k' = k0 := fun h => h0 h.symm
+        simp [dset, dget, h0, this]
+      · simp [dset, dget, h0, h1, dget_dset k k' v rest]
+
+theorem mem_dset (k v : Str) : ∀ (D : UDict) (kv : Str × Str), kv ∈ dset k v D → kv ∈ D ∨ kv = (k, v)
+  | [], kv, h => by simp [dset] at h; exact Or.inr h
+  | (k0, v0) :: rest, kv, h => by
+    by_cases h0 : k0 = k
+    · simp only [dset, h0, if_true, List.mem_cons] at h
+      rcases h with h | h
+      · exact Or.inr h
+      · exact Or.inl (by simp [h])
+    · simp only [dset, h0, if_false, List.mem_cons] at h
+      rcases h with h | h
+      · exact Or.inl (by simp [h])
+      · rcases mem_dset k v rest kv h with h | h
+        · exact Or.inl (by simp [h])
+        · exact Or.inr h
+
+theorem dset_fresh (k v : Str) : ∀ D : UDict, dget k D = none → dset k v D = D ++ [(k, v)]
+  | [], _ => rfl
+  | (k0, v0) :: rest, h => by
+    by_cases h0 : k0 = k
+    · simp [dget, h0] at h
+    · simp only [dget, h0, if_false] at h
+      simp [dset, h0, dset_fresh k v rest h]
+
+theorem dget_of_mem : ∀ (D : UDict), (D.map (·.1)).Nodup → ∀ k v, (k, v) ∈ D → dget k D = some v
+  | [], _, k, v, h => by simp at h
+  | (k0, v0) :: rest, hn, k, v, h => by
+    simp only [List.map_cons, List.nodup_cons] at hn
+    rcases List.mem_cons.mp h with h | h
+    · cases h; simp [dget]
+    · have : k0 ≠ k := by
+        intro heq
+        exact hn.1 (heq ▸ List.mem_map_of_mem (f := (·.1)) h)
+      simp [dget, this, dget_of_mem rest hn.2 k v h]
+
+/-- one `_record_uuid` of a reference that agrees with what the dictionary knows -/
+theorem record_step (D : UDict) (r : Str × Str) (hne : r.2 ≠ [])
+    (hc : ∀ v, dget r.1 D = some v → v = r.2) :
+    ∃ D', record D r = .ok D' ∧ (∀ k v, dget k D = some v → dget k D' = some v) ∧
+      dget r.1 D' = some r.2 ∧ (∀ kv ∈ D', kv ∈ D ∨ kv = r) ∧
+      (∀ k v, dget k D' = some v → dget k D = some v ∨ (k = r.1 ∧ v = r.2)) := by
+  cases hg : dget r.1 D with
+  | none =>
+    refine ⟨dset r.1 r.2 D, by simp [record, hg], ?_, by simp [dget_dset], ?_, ?_⟩
+    · intro k v hk
+      rw [dget_dset]
+      by_cases h : r.1 = k
+      · subst h; rw [hg] at hk; cases hk
+      · simp [h, hk]
+    · intro kv hkv
+      rcases mem_dset _ _ D kv hkv with h | h
+      · exact Or.inl h
+      · exact Or.inr (by rw [h])
+    · intro k v hk
+      rw [dget_dset] at hk
+      by_cases h : r.1 = k
+      · simp [h] at hk; exact Or.inr ⟨h.symm, hk.symm⟩
+      · simp [h] at hk; exact Or.inl hk
+  | some v0 =>
+    have hv := hc v0 hg
+    subst hv
+    refine ⟨D, ?_, fun _ _ h => h, hg, fun kv h => Or.inl h, fun _ _ h => Or.inl h⟩
+    simp [record, hg, hne]
+
+theorem recordAll_functional : ∀ (refs : List (Str × Str)) (D : UDict),
+    (∀ r ∈ refs, r.2 ≠ []) → (∀ r ∈ refs, ∀ s ∈ refs, r.1 = s.1 → r.2 = s.2) →
+    (∀ r ∈ refs, ∀ v, dget r.1 D = some v → v = r.2) →
+    ∃ D', recordAll D refs = .ok D' ∧ (∀ k v, dget k D = some v → dget k D' = some v) ∧
+      (∀ r ∈ refs, dget r.1 D' = some r.2) ∧ (∀ kv ∈ D', kv ∈ D ∨ kv ∈ refs) ∧
+      (∀ k v, dget k D' = some v → dget k D = some v ∨ (k, v) ∈ refs)
+  | [], D, _, _, _ => ⟨D, rfl, fun _ _ h => h, by simp, fun kv h => Or.inl h, fun _ _ h => Or.inl h⟩
+  | r :: rs, D, hne, hf, hc => by
+    obtain ⟨D1, h1, hmono1, hr1, hmem1, hrev1⟩ := record_step D r (hne r (by simp)) (hc r (by simp))
+    have hc' : ∀ s ∈ rs, ∀ v, dget s.1 D1 = some v → v = s.2 := by
+      intro s hs v hv
+      rcases hrev1 s.1 v hv with h | ⟨h1, h2⟩
+      · exact hc s (by simp [hs]) v h
+      · rw [h2]; exact hf r (by simp) s (by simp [hs]) h1.symm
+    obtain ⟨D2, h2, hmono2, hr2, hmem2, hrev2⟩ := recordAll_functional rs D1
+      (fun s hs => hne s (by simp [hs])) (fun a ha b hb => hf a (by simp [ha]) b (by simp [hb])) hc'
+    refine ⟨D2, by simp [recordAll, h1, h2], fun k v h => hmono2 k v (hmono1 k v h), ?_, ?_, ?_⟩
+    · intro s hs
+      rcases List.mem_cons.mp hs with rfl | hs
+      · exact hmono2 _ _ hr1
+      · exact hr2 s hs
+    · intro kv hkv
+      rcases hmem2 kv hkv with h | h
+      · rcases hmem1 kv h with h | h
+        · exact Or.inl h
+        · exact Or.inr (by simp [h])
+      · exact Or.inr (by simp [h])
+    · intro k v hk
+      rcases hrev2 k v hk with h | h
+      · rcases hrev1 k v h with h | ⟨h1, h2⟩
+        · exact Or.inl h
+        · exact Or.inr (by subst h1 h2; simp)
+      · exact Or.inr (by simp [h])
+
+/-- `recordTriggers` = `recordAll` of the triggers' flows when every flow name is known -/
+theorem recordTriggers_functional : ∀ (ts : List TriggerC) (D : UDict),
+    (∀ t ∈ ts, (fref t.flow).2 ≠ []) →
+    (∀ t ∈ ts, ∀ s ∈ ts, t.flow.name = s.flow.name → t.flow.uuid = s.flow.uuid) →
+    (∀ t ∈ ts, ∀ v, dget t.flow.name D = some v → v = t.flow.uuid) →
+    (∀ t ∈ ts, ∃ v, dget t.flow.name D = some v) →
+    ∃ D', recordTriggers D ts = .ok D' ∧ (∀ k v, dget k D = some v → dget k D' = some v) ∧
+      (∀ t ∈ ts, dget t.flow.name D' = some t.flow.uuid) ∧
+      (∀ kv ∈ D', kv ∈ D ∨ kv ∈ ts.map (fun t => fref t.flow))
+  | [], D, _, _, _, _ => ⟨D, rfl, fun _ _ h => h, by simp, fun kv h => Or.inl h⟩
+  | t :: ts, D, hne, hf, hc, hex => by
+    obtain ⟨v0, hv0⟩ := hex t (by simp)
+    obtain ⟨D1, h1, hmono1, hr1, hmem1, hrev1⟩ := record_step D (fref t.flow) (hne t (by simp)) (hc t (by simp))
+    have hc' : ∀ s ∈ ts, ∀ v, dget s.flow.name D1 = some v → v = s.flow.uuid := by
+      intro s hs v hv
+      rcases hrev1 s.flow.name v hv with h | ⟨h1, h2⟩
+      · exact hc s (by simp [hs]) v h
+      · rw [h2]; exact hf t (by simp) s (by simp [hs]) h1.symm
+    have hex' : ∀ s ∈ ts, ∃ v, dget s.flow.name D1 = some v := by
+      intro s hs
+      obtain ⟨v, hv⟩ := hex s (by simp [hs])
+      exact ⟨v, hmono1 _ _ hv⟩
+    obtain ⟨D2, h2, hmono2, hr2, hmem2⟩ := recordTriggers_functional ts D1
+      (fun s hs => hne s (by simp [hs])) (fun a ha b hb => hf a (by simp [ha]) b (by simp [hb])) hc' hex'
+    refine ⟨D2, by simp [recordTriggers, hv0, h1, h2], fun k v h => hmono2 k v (hmono1 k v h), ?_, ?_⟩
+    · intro s hs
+      rcases List.mem_cons.mp hs with rfl | hs
+      · exact hmono2 _ _ hr1
+      · exact hr2 s hs
+    · intro kv hkv
+      rcases hmem2 kv hkv with h | h
+      · rcases hmem1 kv h with h | h
+        · exact Or.inl h
+        · exact Or.inr (by simp [h])
+      · exact Or.inr (by simp at h ⊢; exact Or.inr h)
+
+/-- recording names the dictionary does not know yet appends them -/
+theorem recordAll_fresh : ∀ (gs : List (Str × Str)) (D : UDict),
+    (∀ g ∈ gs, dget g.1 D = none) → (gs.map (·.1)).Nodup → recordAll D gs = .ok (D ++ gs)
+  | [], D, _, _ => by simp [recordAll]
+  | g :: gs, D, hd, hn => by
+    simp only [List.map_cons, List.nodup_cons] at hn
+    have hg := hd g (by simp)
+    have h1 : record D g = .ok (D ++ [g]) := by
+      simp [record, hg, dset_fresh g.1 g.2 D hg]
+    have hd' : ∀ g' ∈ gs, dget g'.1 (D ++ [g]) = none := by
+      intro g' hg'
+      rw [← dset_fresh g.1 g.2 D hg, dget_dset]
+      have : g.1 ≠ g'.1 := by
+        intro heq
+        exact hn.1 (heq ▸ List.mem_map_of_mem (f := (·.1)) hg')
+      simp [this, hd g' (by simp [hg'])]
+    simp [recordAll, h1, recordAll_fresh gs (D ++ [g]) hd' hn.2]
+
+theorem recordAll_listed : ∀ (refs : List (Str × Str)) (D : UDict),
+    (∀ r ∈ refs, dget r.1 D = some r.2 ∧ r.2 ≠ []) → recordAll D refs = .ok D
+  | [], D, _ => rfl
+  | r :: rs, D, h => by
+    have hr := h r (by simp)
+    have h1 : record D r = .ok D := by simp [record, hr.1, hr.2]
+    simp [recordAll, h1, recordAll_listed rs D (fun s hs => h s (by simp [hs]))]
+
+theorem recordAll_append : ∀ (xs ys : List (Str × Str)) (D D' : UDict),
+    recordAll D xs = .ok D' → recordAll D (xs ++ ys) = recordAll D' ys
+  | [], ys, D, D', h => by simp [recordAll] at h; subst h; rfl
+  | x :: xs, ys, D, D', h => by
+    simp only [recordAll, List.cons_append] at h ⊢
+    cases hx : record D x with
+    | error e => simp [hx] at h
+    | ok D1 =>
+      simp only [hx] at h ⊢
+      exact recordAll_append xs ys D1 D' h
+
+/-! ### images: what a valid piece loads to -/
+
+def okOr {α : Type} (d : α) : Except Err α → α
+  | .ok a => a
+  | .error _ => d
+
+def nodeImg (n : NodeD) : NodeC :=
+  okOr { uuid := [], actions := [], router := none, exit := none, uiPos := none } (loadNode n)
+
+/-- everything the theorems assume about one node -/
+def NodeOk (n : NodeD) : Prop :=
+  validNode n = true ∧ exitsByCats n = true ∧ (∀ r, n.router = some r → orderedRouter r = true) ∧
+    (∀ a ∈ n.actions, untypedAction a = true)
+
+theorem nodeImg_spec (n : NodeD) (h : NodeOk n) :
+    loadNode n = .ok (nodeImg n) ∧ (nodeImg n).uuid = n.uuid ∧ (nodeImg n).actions = n.actions ∧
+      (nodeImg n).uiPos = none ∧ nodeCasesC (nodeImg n) = nodeCasesD n ∧
+      normNode (renderNode (nodeImg n)) = normNode n := by
+  obtain ⟨nc, hl, h1, h2, h3, h4, h5⟩ := loadNode_ok n h.1 h.2.1 h.2.2.1 h.2.2.2
+  have : nodeImg n = nc := by simp [nodeImg, okOr, hl]
+  rw [this]
+  exact ⟨hl, h1, h2, h3, h4, h5⟩
+
+def setPos (U : List (Str × Blob × Blob)) (nc : NodeC) : NodeC := { nc with uiPos := lookupPos nc.uuid U }
+
+theorem renderNode_setPos (U : List (Str × Blob × Blob)) (nc : NodeC) : renderNode (setPos U nc) = renderNode nc := rfl
+
+def flowImg (f : FlowD) : FlowC :=
+  { uuid := f.uuid, name := f.name, language := f.language, type := f.type, specVersion := f.specVersion,
+    revision := f.revision, expire := f.expire, metadata := f.metadata, localization := f.localization,
+    nodes := (f.nodes.map nodeImg).map (setPos (f.ui.getD [])) }
+
+theorem keepsOr_if (dflt b : Blob) (h : keepsOr dflt b = true) : (if falsy b = true then dflt else b) = b := by
+  simp only [keepsOr, truthy, Bool.or_eq_true, Bool.not_eq_true', beq_iff_eq] at h
+  rcases h with h | h
+  · simp [h]
+  · subst h; simp
+
+theorem lookupPos_nil (u : Str) : lookupPos u [] = none := rfl
+
+theorem loadFlow_ok (f : FlowD) (hv : validFlow f = true) (hn : ∀ n ∈ f.nodes, NodeOk n) :
+    loadFlow f = .ok (flowImg f) := by
+  simp only [validFlow, Bool.and_eq_true, bne_iff_ne, ne_eq] at hv
+  obtain ⟨⟨⟨hu, hm⟩, hl⟩, _⟩ := hv
+  have hns : mapE loadNode f.nodes = .ok (f.nodes.map nodeImg) :=
+    mapE_ok_of_forall f.nodes (fun n hn' => (nodeImg_spec n (hn n hn')).1)
+  unfold loadFlow
+  rw [if_neg hu]
+  simp only [hns, keepsOr_if _ _ hm, keepsOr_if _ _ hl, flowImg]
+  cases hui : f.ui with
+  | some U => rfl
+  | none =>
+    have : List.map (setPos []) (List.map nodeImg f.nodes) = List.map nodeImg f.nodes := by
+      rw [List.map_map]
+      calc List.map (setPos [] ∘ nodeImg) f.nodes = List.map (id ∘ nodeImg) f.nodes := by
+            apply List.map_congr_left
+            intro n hn'
+            have h3 := (nodeImg_spec n (hn n hn')).2.2.2.1
+            simp only [Function.comp, setPos, lookupPos_nil, id]
+            rw [← h3]
+        _ = List.map nodeImg f.nodes := by simp
+    simp [this]
+
+/-! ### `_ui` positions -/
+
+theorem filterMap_congr' {α β : Type} {f g : α → Option β} : ∀ (l : List α), (∀ a ∈ l, f a = g a) →
+    l.filterMap f = l.filterMap g
+  | [], _ => rfl
+  | a :: as, h => by
+    simp only [List.filterMap_cons, h a (by simp), filterMap_congr' as (fun x hx => h x (by simp [hx]))]
+
+theorem lookupPos_filterMap (U : List (Str × Blob × Blob)) (u : Str) : ∀ ks : List Str,
+    lookupPos u (ks.filterMap (fun k => (lookupPos k U).map (fun p => (k, p)))) =
+      if u ∈ ks then lookupPos u U else none
+  | [] => by simp [lookupPos]
+  | k :: ks => by
+    have ih := lookupPos_filterMap U u ks
+    cases hk : lookupPos k U with
+    | none =>
+      simp only [List.filterMap_cons, hk, Option.map_none, ih, List.mem_cons]
+      by_cases h1 : u = k
+      · subst h1; simp [hk]
+      · simp [h1]
+    | some p =>
+      simp only [List.filterMap_cons, hk, Option.map_some, lookupPos, ih, List.mem_cons]
+      by_cases h1 : k = u
+      · subst h1; simp [hk]
+      · have : ¬ u = k := fun h => h1 h.symm
+        simp [h1, this]
+
+theorem normFlow_renderFlow (f : FlowD) (hn : ∀ n ∈ f.nodes, NodeOk n) :
+    normFlow (renderFlow (flowImg f)) = normFlow f := by
+  have huuid : ∀ n ∈ f.nodes, (nodeImg n).uuid = n.uuid := fun n h => (nodeImg_spec n (hn n h)).2.1
+  -- rendered nodes
+  have hnodes : (flowImg f).nodes.map renderNode = f.nodes.map (fun n => renderNode (nodeImg n)) := by
+    simp [flowImg, List.map_map, Function.comp_def, renderNode_setPos]
+  have hnorm : (f.nodes.map (fun n => renderNode (nodeImg n))).map normNode = f.nodes.map normNode := by
+    rw [List.map_map]
+    apply List.map_congr_left
+    intro n h
+    exact (nodeImg_spec n (hn n h)).2.2.2.2.2
+  -- rendered positions
+  let U := f.ui.getD []
+  let R := f.nodes.filterMap (fun n => (lookupPos n.uuid U).map (fun p => (n.uuid, p)))
+  have hR : (flowImg f).nodes.filterMap (fun n => n.uiPos.map (fun p => (n.uuid, p))) = R := by
+    simp only [flowImg, List.filterMap_map, R]
+    apply filterMap_congr'
+    intro n h
+    simp [Function.comp, setPos, huuid n h, U]
+  have hlook : ∀ n ∈ f.nodes, lookupPos n.uuid R = lookupPos n.uuid U := by
+    intro n h
+    have := lookupPos_filterMap U n.uuid (f.nodes.map (·.uuid))
+    rw [List.filterMap_map] at this
+    have hm : n.uuid ∈ f.nodes.map (·.uuid) := List.mem_map_of_mem h
+    simp only [hm, if_true] at this
+    exact this
+  have hui : ((if R = [] then none else some R : Option (List (Str × Blob × Blob)))).getD [] = R := by
+    by_cases h : R = [] <;> simp [h]
+  have hruuid : ∀ n ∈ f.nodes, (renderNode (nodeImg n)).uuid = n.uuid := fun n h => huuid n h
+  simp only [normFlow, renderFlow, hnodes, hR, hui, hnorm, List.filterMap_map]
+  have : List.filterMap ((fun n => Option.map (fun p => (n.uuid, p)) (lookupPos n.uuid R)) ∘ fun n => renderNode (nodeImg n)) f.nodes
+      = List.filterMap (fun n => Option.map (fun p => (n.uuid, p)) (lookupPos n.uuid (f.ui.getD []))) f.nodes := by
+    apply filterMap_congr'
+    intro n h
+    simp only [Function.comp, hruuid n h, hlook n h, U]
+  simp [this, flowImg]
+
 end Rpft.Document
